@@ -9,9 +9,10 @@
 	} while (0)
 
 /* ---- skeleton builders: real objects, real list code, everything else nondet ---- */
-/* typed allocation (malloc(sizeof(T)) keeps the object's struct type: field-sensitive); contents nondeterministic */
-static void *vp_nn(void *p) { __CPROVER_assume(p != NULL); return (p); }
-#define VP_NEW(T) ((T *) vp_nn(malloc(sizeof(T))))
+/* typed allocation (sizeof(T) keeps the object's struct type: field-sensitive); contents nondeterministic */
+/* __CPROVER_allocate: a new heap object that always exists (the harness is not the code under test;
+ * the code's own allocations go through nni_alloc, which may fail) */
+#define VP_NEW(T) ((T *) __CPROVER_allocate(sizeof(T), 0))
 static sub0_topic *vp_mk_topic(nni_list *l, bool on)
 {
 	sub0_topic *t   = VP_NEW(sub0_topic);
@@ -20,7 +21,7 @@ static sub0_topic *vp_mk_topic(nni_list *l, bool on)
 	__CPROVER_assume(t->len <= SUB_MAXTOPIC);
 	t->buf = NULL; /* NNI_ALLOC_STRUCT zeroes; a buffer exists only for len > 0 */
 	if (t->len > 0) {
-		t->buf = vp_nn(malloc(t->len));
+		t->buf = __CPROVER_allocate(t->len, 0);
 	}
 	if (on) {
 		real_list_append(l, t);
@@ -32,6 +33,7 @@ static void vp_mk_ctx(sub0_ctx *c)
 	c->sock         = g_s;
 	c->node.ln_next = NULL;
 	c->node.ln_prev = NULL;
+	c->lmq.lmq_msgs = &c->lmq.lmq_buf[0]; /* inline buffer (lmq_alloc == 0); a heap array is attached by the contract otherwise */
 	real_list_init_offset(&c->topics, offsetof(sub0_topic, node));
 	real_list_append(&g_s->contexts, c);
 }
@@ -68,3 +70,5 @@ void h_sub0_matches(void) { uint8_t *body; size_t len; VP_HAVOC_GHOSTS(); vp_mk_
 #define SUB_NC 1
 #endif
 void h_sub0_recv_cb(void) { VP_HAVOC_GHOSTS(); vp_mk_sock(SUB_NC, nondet_size_t(), nondet_size_t()); sub0_recv_cb(g_pp); VP_CANARY(); }
+int g_dbg;
+void h_dbg(void) { VP_HAVOC_GHOSTS(); vp_mk_sock(1, nondet_size_t(), nondet_size_t()); sub0_ctx *c = nni_list_first(&g_pp->sub->contexts); if (VP_IS_AIOQ(&c->recv_queue)) g_dbg = 1; else g_dbg = 2; __CPROVER_assert(g_dbg == 1, "dbg"); }
